@@ -13,8 +13,9 @@
   table cases `stale-and`, `tainted-contains`, `isin-eager`, … replay them on the Go code).
 
   PROVED (all about `partialE` / `partialPolicy`, the transcription of partial.go):
-    * `C06_partialE_sound` — expression level, FULL: for EVERY expression, partial environment and completion σ of the
-      unknowns, whatever `partial` returns for `e` is correct: a literal is the value of `e` (up to completing unknowns
+    * `C06_partialE_sound` — expression level, FULL: for EVERY expression a parser, decoder or builder can produce
+      (`Expr.recKeysDistinct`: no record literal repeats a key — see the note below), partial environment and completion
+      σ of the unknowns, whatever `partial` returns for `e` is correct: a literal is the value of `e` (up to completing unknowns
       it merely contains — only `.`/`has` look inside such a value), a residual agrees with `e` (same value, or both
       fail), an error means `e` fails under every completion.
     * `C06_partial_keep_sound_partial` — policy level: if the policy is kept, the residual policy is satisfied under the
@@ -28,10 +29,17 @@
       `PartialPolicy` (it holds at expression level: `C06_partialE_sound`; the property text only demands satisfaction),
       and because the premise is expressed through `partialE` (decidable, evaluated by the driver per case) rather than
       as "no ignore marker occurs anywhere in the inputs".
-    * `C06_partial_ignore_widens_partial` — ignored request parts, EVERY permit policy: if it is satisfied for some value
+    * `C06_partial_ignore_widens_partial` — ignored request parts, EVERY permit policy (record keys distinct): if it is satisfied for some value
       of the ignored parts it is kept and its residual is satisfied (ignoring only widens).
     * `C06_former_counterexamples_sound` — the five former counterexample inputs now satisfy the property, and
       `C06_domain_nonvacuous` — policies that genuinely use unknowns are kept with non-trivial residuals.
+  NOTE on `Expr.recKeysDistinct` (hypothesis of the expression-level theorem and of the ignore theorem, a conjunct of
+  `partialDomain`).  The shared model evaluates a record literal the way the repaired `recordLiteralEval` does: `ToEval`
+  stores the entries in a map (a later duplicate key REPLACES the earlier entry, which is never evaluated), the keys are
+  visited in ascending order.  `partial` visits EVERY element of `NodeTypeRecord.Elements`, also one that `ToEval` drops,
+  so for a hand-written node that repeats a key (`{a: 1 + "x", a: 2}` — the text parser rejects it, the JSON decoder and
+  `ast.Record` cannot produce it) `partial` reports the error of an entry that `Eval` never looks at.  The statements are
+  therefore about expressions in which every record literal lists a key once.
   NOT PROVED
     * agreement of error-ness at policy level (see above).
     * independence of the residual from the ignored parts (the residual is evaluated under the same value of the
@@ -112,15 +120,15 @@ example : satisfied ceIsInPolicy ceBase = true ∧
       r = (nil, errIgnore)  ⇒  (nothing: ignore markers only promise widening)
       r = (nil, err)        ⇒  eval e env is an error
     for the completed environment `env = completeEnv σ envHat`, for EVERY expression, environment and σ. -/
-theorem C06_partialE_sound (σ : String → Value) (envHat : Env) (e : Expr) :
+theorem C06_partialE_sound (σ : String → Value) (envHat : Env) (e : Expr) (hk : e.recKeysDistinct = true) :
     Sound (Value.substAll σ) (completeEnv σ envHat) e (partialE envHat e) :=
-  partialE_sound (completesVia_complete σ envHat) e
+  partialE_sound (completesVia_complete σ envHat) e hk
 
 /-- a residual expression agrees with the original: same value, or both fail -/
-theorem C06_partialE_residual_agrees (σ : String → Value) (envHat : Env) (e e' : Expr) (hl : e'.isLit = false)
-    (h : partialE envHat e = .ok e') :
+theorem C06_partialE_residual_agrees (σ : String → Value) (envHat : Env) (e e' : Expr) (hk : e.recKeysDistinct = true)
+    (hl : e'.isLit = false) (h : partialE envHat e = .ok e') :
     R (eval e' (completeEnv σ envHat)) (eval e (completeEnv σ envHat)) := by
-  have := C06_partialE_sound σ envHat e
+  have := C06_partialE_sound σ envHat e hk
   rw [h] at this
   exact (Sound.ok_nonlit hl).mp this
 
@@ -142,6 +150,16 @@ theorem C06_partial_drop_sound_partial (envHat env : Env) (p : Policy)
   have := partialPolicy_sound σ envHat p hd
   rw [hk] at this
   exact this
+
+/-- why `Expr.recKeysDistinct` is a hypothesis: a hand-written record node that repeats a key.  `partial` visits both
+    elements and reports the type error of the first; `Eval` evaluates the map built by `ToEval`, where the second entry
+    has replaced the first, and yields `{a: 2}` (replayed on the Go code: `Eval` gives the value, the residual of
+    `PartialPolicy` an error).  No parser, decoder or builder produces such a node. -/
+def dupKeyRecord : Expr := .record [("a", .binop .add (.lit (.long 1)) (.lit (.str "x"))), ("a", .lit (.long 2))]
+example : dupKeyRecord.recKeysDistinct = false ∧
+    (match partialE ceBase dupKeyRecord with | .err _ => true | _ => false) = true ∧
+    (match eval dupKeyRecord ceBase with | .ok (.record [("a", .long 2)]) => true | _ => false) = true := by
+  refine ⟨by decide +kernel, by decide +kernel, by decide +kernel⟩
 
 /-- the former counterexamples satisfy the premise and hence the theorems; spelled out for their completions -/
 theorem C06_former_counterexamples_sound :
@@ -194,12 +212,12 @@ def CompletesI (envHat env : Env) : Prop :=
     Proved here for EVERY permit policy and environment (ignore markers allowed anywhere): kept, and the residual is
     satisfied under the SAME values of the ignored parts.  Not proved: that the residual's value does not depend on the
     ignored parts at all (the oracle evaluates the residual under both the witness value and the batch placeholder). -/
-theorem C06_partial_ignore_widens_partial (envHat env : Env) (p : Policy)
+theorem C06_partial_ignore_widens_partial (envHat env : Env) (p : Policy) (hk : p.recKeysDistinct = true)
     (hc : CompletesI envHat env) (hperm : p.effect = .permit)
     (hsat : satisfied p env = true) :
     ∃ r, partialPolicy envHat p = some r ∧ satisfied r env = true := by
   obtain ⟨σ, ι, rfl⟩ := hc
-  exact partialPolicy_widen σ ι envHat p hperm hsat
+  exact partialPolicy_widen σ ι envHat p hk hperm hsat
 
 /-- non-vacuity: principal ignored, an unknown in the context; the scope clause and the condition on the principal
     disappear, the condition on the unknown stays -/
